@@ -836,8 +836,8 @@ def run_batch(exe, text, env=None, timeout=600, nproc=8):
 ASAN_ENV = {"ASAN_OPTIONS": "detect_leaks=0:abort_on_error=0:exitcode=77:allocator_may_return_null=1", "UBSAN_OPTIONS": "print_stacktrace=0"}
 
 
-def run_impl(impl, cases, hang_ids=()):
-    text = "".join(enc_case(cid, ops, 400 if cid in hang_ids else 20000) for cid, ops in cases)
+def run_impl(impl, cases, hang_ids=(), budget=20000):
+    text = "".join(enc_case(cid, ops, 400 if cid in hang_ids else budget) for cid, ops in cases)
     return parse_output(run_batch(impl, text, env=ASAN_ENV))
 
 
@@ -885,14 +885,19 @@ def nontrivial(tr):
     return tr.outcome is not None or any(r and r[0] in ("null",) for r, _, _ in tr.ops)
 
 
+SHRINK_MS = 2500           # per candidate while shrinking: the cases themselves run in milliseconds; a candidate that spins is not "smaller"
+SHRINK_WALL = 90           # seconds of wall clock per shrink: a change that makes operations spin must not turn the check into hours
+
+
 def shrink(ops, fails, budget=80):
     """greedy delta debugging on the op list; fails(ops) -> bool"""
     cur = list(ops)
     changed = True
-    while changed and budget > 0:
+    t_end = time.time() + SHRINK_WALL
+    while changed and budget > 0 and time.time() < t_end:
         changed = False
         i = len(cur) - 1
-        while i >= 0 and budget > 0:
+        while i >= 0 and budget > 0 and time.time() < t_end:
             cand = cur[:i] + cur[i + 1:]
             budget -= 1
             if cand and fails(cand):
@@ -967,7 +972,7 @@ def evaluate(ctx, V, impl, model, cases, record=True):
             quick = ("s",) if a.outcome == "Hang" else ()        # a candidate that spins is cut after 0.4 s, not 20 s
 
             def fails(cand, v=v):
-                t = run_impl(impl, [("s", cand)], quick).get("s")
+                t = run_impl(impl, [("s", cand)], quick, budget=SHRINK_MS).get("s")
                 if t is None:
                     return False
                 try:
@@ -977,7 +982,7 @@ def evaluate(ctx, V, impl, model, cases, record=True):
                 return False
             small = shrink(ops, fails, budget=10 if "did not return" in v.detail or "Hang" in v.detail else 80) if len(ops) > 2 else ops
             detail = v.detail
-            t = run_impl(impl, [("s", small)], quick).get("s")
+            t = run_impl(impl, [("s", small)], quick, budget=SHRINK_MS).get("s")
             try:
                 monitor(small, t)
             except Viol as v2:
@@ -997,11 +1002,11 @@ def evaluate(ctx, V, impl, model, cases, record=True):
         if diff:
             ndis += 1
             if not any(x["kind"] == "correspondence" for x in V.broken) or len(V.broken) < 4:
-                def differs(cand):
-                    x = run_impl(impl, [("s", cand)]).get("s"); y = run_model(model, [("s", cand)]).get("s")
+                def differs(cand, a=a):
+                    x = run_impl(impl, [("s", cand)], ("s",) if a.outcome == "Hang" else (), budget=SHRINK_MS).get("s"); y = run_model(model, [("s", cand)]).get("s")
                     return x is not None and y is not None and compare(cand, x, y) is not None
                 small = shrink(ops, differs, budget=60) if len(ops) > 2 else ops
-                x = run_impl(impl, [("s", small)]).get("s"); y = run_model(model, [("s", small)]).get("s")
+                x = run_impl(impl, [("s", small)], budget=SHRINK_MS).get("s"); y = run_model(model, [("s", small)]).get("s")
                 d2 = compare(small, x, y) if x and y else None
                 V.tie_broken("correspondence", "R-HL", d2 or diff, case=[enc_op(o) for o in small])
     return nviol, ndis
@@ -1171,16 +1176,32 @@ def oracle_stage(ctx, V, only=None):
     t0 = time.time()
     res = {}
     step = 500
+    spun = []
+
+    def run_range(lo, hi):
+        """the driver runs the C in-process: a case that spins takes the whole chunk with it -> short time-out, bisect to the case"""
+        part = hlo_run(exe, cases[lo:hi], timeout=6)
+        if len(part) == hi - lo or len(spun) >= 4:
+            for k, v in part.items():
+                res[lo + int(k[1:])] = v
+        elif hi - lo == 1:
+            spun.append(lo)
+        else:
+            mid = (lo + hi) // 2
+            run_range(lo, mid); run_range(mid, hi)
     for i in range(0, len(cases), step):
-        part = hlo_run(exe, cases[i:i + step])
-        for k, v in part.items():
-            res[i + int(k[1:])] = v
+        run_range(i, min(len(cases), i + step))
     nv = nd = 0
     for i, (op, arg) in enumerate(cases):
         canon = hlo_canon(op, arg)
         if only is None:
             V.case(canon, nontrivial=(op != "E" and len(arg) > 1) or (op == "E" and (b"[" in arg or b"," in arg)))
             V.count("kind:hlo-" + op)
+        if i in spun:
+            if nv < 5:
+                V.violation("services_return", "oracle:" + op, witness=[canon], detail="the host-list service %s did not return within 6 s on this argument (every other case takes microseconds)" % op)
+            nv += 1
+            continue
         if i not in res:
             if nd < 3:
                 V.tie_broken("tie", "R-HLO:harness-run", "the oracle driver produced no answer (crash of the implementation side?)", case=[canon])
@@ -1191,7 +1212,7 @@ def oracle_stage(ctx, V, only=None):
         v = hlo_monitor(op, arg, ans)
         if v:
             def fails(cand, op=op, clause=v[0]):
-                r = hlo_run(exe, [(op, cand)]).get("h0")
+                r = hlo_run(exe, [(op, cand)], timeout=5).get("h0")
                 w = hlo_monitor(op, cand, hlo_res(op, r[1])) if r else None
                 return bool(w and w[0] == clause)
             small = hlo_shrink(exe, op, arg, fails)
@@ -1202,7 +1223,7 @@ def oracle_stage(ctx, V, only=None):
             nv += 1
         elif m != a:
             def differs(cand, op=op):
-                r = hlo_run(exe, [(op, cand)]).get("h0")
+                r = hlo_run(exe, [(op, cand)], timeout=5).get("h0")
                 return bool(r and r[0] != r[1])
             small = hlo_shrink(exe, op, arg, differs)
             r2 = hlo_run(exe, [(op, small)]).get("h0") or (m, a)
